@@ -193,7 +193,17 @@ impl Tracer {
             return Ok(());
         }
         self.lock_group_stop();
+        // the guard must be released on every exit, otherwise all later group stops are skipped
+        let result = self.group_stop_interrupt_locked(tcx, initiator_pid);
+        self.unlock_group_stop();
+        result
+    }
 
+    fn group_stop_interrupt_locked(
+        &mut self,
+        tcx: TraceContext,
+        initiator_pid: Pid,
+    ) -> Result<(), Error> {
         debug!(
             target: "tracer",
             "initiate group stop, initiator: {initiator_pid}, debugee state: {:?}",
@@ -211,7 +221,6 @@ impl Tracer {
                 "group stop complete, debugee state: {:?}",
                 self.tracee_ctl.snapshot()
             );
-            self.unlock_group_stop();
             return Ok(());
         }
 
@@ -292,8 +301,6 @@ impl Tracer {
                 }
             }
         }
-
-        self.unlock_group_stop();
 
         debug!(
             target: "tracer",
